@@ -37,7 +37,7 @@ def replay_one(chk, rp):
 
 
 def run(chk, replay=None):
-    chk.rule = ('every code point in text/attribute/CDATA position; all strings <= 3 (quick) / 4 (thorough) over 13 XML-significant '
+    chk.rule = ('every code point in text/attribute/CDATA position; all strings <= 3 (quick) / 5 (thorough) over 13 XML-significant '
                 'characters in the three positions; seeded random trees (depth <= 4, foreign/empty namespaces, nasty strings); '
                 'random documents through all seven renderings; namespace-table histories in fresh interpreters. '
                 'non-trivial = non-empty string / tree with attributes or children')
